@@ -238,7 +238,21 @@ fn report_found(
 }
 
 /// Run every accessor on `bytes` (and on its descendants), every FromTLV decoder on the root.
+/// Wall-clock budget of a slow-interpreter run (Miri): once it is used up the remaining inputs
+/// of the shard are skipped (and counted), so that the process ends with the report of what
+/// it did observe instead of running into the driver's time-out. Only coverage depends on it,
+/// never a verdict.
+static SLOW_RUN_DEADLINE: std::sync::OnceLock<std::time::Instant> = std::sync::OnceLock::new();
+
+pub fn past_deadline() -> bool {
+    SLOW_RUN_DEADLINE.get().map(|d| std::time::Instant::now() > *d).unwrap_or(false)
+}
+
 pub fn probe_input(rep: &mut Report, st: &mut Stats, bytes: &[u8], class: &'static str) {
+    if past_deadline() {
+        st.count("inputs-skipped-after-the-slow-run-budget");
+        return;
+    }
     rep.evaluations += 1;
     st.count("inputs");
     st.progress.fetch_add(1, Ordering::Relaxed);
@@ -447,6 +461,9 @@ pub fn run(ctx: &Ctx) -> Report {
     rep.floor("sub:widened-to-8-byte-length", scale(5_000).max(1));
 
     let mut st = Stats::new();
+    if ctx.mode == "miri" {
+        let _ = SLOW_RUN_DEADLINE.set(std::time::Instant::now() + std::time::Duration::from_secs(25 * 60));
+    }
     if ctx.mode != "miri" {
         // (an interpreter 10^4 times slower legitimately spends minutes on one input; there
         // the driver's per-process time-out is the only guard)
@@ -457,6 +474,9 @@ pub fn run(ctx: &Ctx) -> Report {
     // ---------------- (A) round trips ----------------
     let n_trees = ctx.share(40_000, 1_600_000);
     for i in 0..n_trees {
+        if past_deadline() {
+            break;
+        }
         let seed = subseed(base, &[0xA, i]);
         tree::rt_tree_case(&mut rep, &mut st, seed, i < 2);
     }
@@ -471,7 +491,7 @@ pub fn run(ctx: &Ctx) -> Report {
     let mut rng = Rng::new(subseed(base, &[0xB]));
     let mut done = 0u64;
     let mut round = 0u64;
-    while done < n_inputs {
+    while done < n_inputs && !past_deadline() {
         let before = rep.evaluations;
         tree::malformed_round(&mut rep, &mut st, &mut rng, round, ctx);
         round += 1;
